@@ -52,7 +52,8 @@ impl Assert {
 /// auxiliary (randomized) segment: regular columns are running sums / products over a main column
 #[derive(Serialize, Deserialize, Clone, Debug, PartialEq, Eq)]
 pub struct AuxDesc {
-    /// per regular aux column: (kind 0 = sum: next = cur + r * main[c]; 1 = product: next = cur * (main[c] + r), source main column c)
+    /// per regular aux column: (kind 0 = sum: next = cur + r * main[c]; kind k >= 1 = product of degree k + 1:
+    /// next = cur * (main[c] + r)^k, source main column c)
     pub cols: Vec<(u8, usize)>,
     pub num_rands: usize,
     pub lagrange: bool,
